@@ -927,6 +927,9 @@ class Machine:
             if not v[1]:
                 return [(('adt', 'Option', 0, ()), a2)]
             return [(('adt', 'Option', 1, (self.read_at(cfg, pos),)), a2)]
+        if name.endswith(' as std::cmp::PartialEq>::eq') and name.startswith('<common::') and len(args) == 2 and all(isinstance(a, tuple) and a[0] == 'adt' and not a[3] for a in args):
+            # derived == on a field-less enum of the crate (e.g. UserInfoOrHost): equality of the variants
+            return [(INT(int(args[0][2] == args[1][2])), ae)]
         if name.endswith('<std::option::Option<T> as std::cmp::PartialEq>::eq') and len(args) == 2 and all(isinstance(a, tuple) and a[0] == 'adt' for a in args):
             x, y = args
             if x[2] != y[2]:
